@@ -373,10 +373,14 @@ func runGalaxy(c *c19Case) *overlapTracker {
 			p := cl.Policies[op.A%len(cl.Policies)]
 			switch op.B % 3 {
 			case 0:
+				sim.SetPolicy(p, true)
 				_ = sim.PM.AddPolicy(p.ToK8s())
 			case 1:
 				_ = sim.PM.UpdatePolicy(p.ToK8s(), p.ToK8s())
 			default:
+				// the informer has dropped the policy from its store when the handler runs: its chain is stale but still referred to
+				// by the chains of the pods it selected, so this pass keeps it for a second sweep
+				sim.SetPolicy(p, false)
 				_ = sim.PM.DeletePolicy(p.ToK8s())
 			}
 		case "policy_sync":
